@@ -228,7 +228,15 @@ def step (st : St) : List String → St × String
       (if r.ncell = 0 then "-nocell" else if r.ncell = 1 then "-1cell" else "-multi") ++
       (if g.px || g.py || g.pz then "-periodic" else "") ++ (if wrapped then "" else "")
     let shownS := " ".intercalate ([s!"cart ray {cellS} {Ca.showV r.pos} {js.length} {showF total}"] ++ shown)
-    (st, s!"{shownS} #cart-{tag}")
+    -- more branch tags: exact tie of the optical depth, crossing through an edge / corner, periodic wrap
+    let cells := r.path.reverse.map (fun e => Cartesian.indicesOf g.n e.1)
+    let diag := (cells.zip (cells.drop 1)).any (fun (a, b) =>
+      (if a.x != b.x then 1 else 0) + (if a.y != b.y then 1 else 0) + (if a.z != b.z then 1 else 0) ≥ 2)
+    let wrapd := (cells.zip (cells.drop 1)).any (fun (a, b) =>
+      (a.x - b.x).natAbs > 1 || (a.y - b.y).natAbs > 1 || (a.z - b.z).natAbs > 1)
+    let extra := (if r.od == 0.0 then " #cart-tau-exactly-zero" else "") ++ (if diag then " #cart-edge-or-corner-crossing" else "")
+      ++ (if wrapd then " #cart-periodic-wrap" else "") ++ (if r.od < 0.0 then " #cart-corrected-last-step" else "")
+    (st, s!"{shownS} #cart-{tag}{extra}")
   | "pl" :: "new" :: npc :: n :: ax :: ay :: az :: sx :: sy :: sz :: rest =>
     let _ := npc
     let b := Pl.build (int! n) ⟨flt! ax, flt! ay, flt! az⟩ ⟨flt! sx, flt! sy, flt! sz⟩ (Pl.points rest).toArray
